@@ -1,6 +1,9 @@
 package vc
 
 import (
+	"io"
+	"encoding/hex"
+	"crypto/sha256"
 	"os/exec"
 	"encoding/json"
 	"flag"
@@ -80,6 +83,13 @@ func cmdCheck(args []string) int {
 	Tier = *tier
 	seed, _ := strconv.Atoi(os.Getenv("VERIF_SEED"))
 	t0 := time.Now()
+	if *tier == "thorough" && os.Getenv("VCHECK_NESTED") == "" && os.Getenv("VCHECK_SELFTEST") != "0" {
+		if f, err := os.CreateTemp("", "vcheck-hashes-*.json"); err == nil {
+			f.Close()
+			os.Setenv("VCHECK_HASH_OUT", f.Name())
+			defer os.Remove(f.Name())
+		}
+	}
 	code, ev := runCheck(*prop, *tier, seed)
 	if *tier == "thorough" && code == 0 && os.Getenv("VCHECK_NESTED") == "" && os.Getenv("VCHECK_SELFTEST") != "0" {
 		ev.Coverage["selftest"] = selfTest(*prop)
@@ -228,25 +238,39 @@ func runCheck(prop, tier string, seed int) (int, *Evidence) {
 		}
 	}
 	_ = nTagged
-	if only := os.Getenv("VCHECK_ONLY_FILES"); only != "" {
-		// selftest replay of a seeded change (nested run, after the same tree verified without the change): verification is
-		// modular, so only the functions defined in the files the change touches can have different obligations
-		set := map[string]bool{}
-		for _, f := range strings.Split(only, ",") {
-			set[strings.TrimSpace(f)] = true
-		}
-		var kept []*FuncResult
+	// Nested replay of a seeded change (selftest): verification is modular, so a function whose generated verification
+	// conditions are byte-for-byte those of the tree without the change (the parent run exports their hashes) has the same
+	// obligations, all of which were just discharged; only the functions whose conditions differ are solved again.
+	if hp := os.Getenv("VCHECK_HASH_OUT"); hp != "" {
+		hs := map[string]string{}
 		for _, r := range results {
-			file := r.Pos
-			if i := strings.Index(file, ":"); i >= 0 {
-				file = file[:i]
-			}
-			if set[file] || set[filepath.Base(file)] {
-				kept = append(kept, r)
-			}
+			hs[r.Key] = vcHash(r)
 		}
-		if len(kept) > 0 {
-			results = kept
+		if b, err := json.Marshal(hs); err == nil {
+			os.WriteFile(hp, b, 0o644)
+		}
+	}
+	if hp := os.Getenv("VCHECK_HASH_IN"); hp != "" {
+		if b, err := os.ReadFile(hp); err == nil {
+			hs := map[string]string{}
+			if json.Unmarshal(b, &hs) == nil && len(hs) > 0 {
+				var kept []*FuncResult
+				for _, r := range results {
+					if hs[r.Key] != vcHash(r) {
+						kept = append(kept, r)
+					}
+				}
+				results = kept
+				if len(results) == 0 {
+					// nothing under contract for this property changed: the change is invisible to this check
+					ev.Coverage["obligations"] = 0
+					ev.Coverage["discharged"] = 0
+					ev.Coverage["checker_cmd"] = "vcheck check --prop " + prop + " (nested replay: no function's verification conditions changed)"
+					ev.Coverage["trusted_base"] = []string{}
+					fmt.Printf("vcheck: %s: no function's verification conditions differ from the unchanged tree\n", prop)
+					return 0, ev
+				}
+			}
 		}
 	}
 	if len(results) == 0 {
@@ -569,8 +593,8 @@ func selfTest(prop string) []map[string]string {
 		}
 		c := exec.Command(self, "check", "--prop", prop, "--tier", "quick")
 		c.Env = append(os.Environ(), "VCHECK_NESTED=1", "VCHECK_REPO="+work, "VCHECK_OUT="+filepath.Join(tmp, "out"))
-		if files := patchedFiles(patch); files != "" {
-			c.Env = append(c.Env, "VCHECK_ONLY_FILES="+files)
+		if hashFile := os.Getenv("VCHECK_HASH_OUT"); hashFile != "" {
+			c.Env = append(c.Env, "VCHECK_HASH_IN="+hashFile, "VCHECK_HASH_OUT=")
 		}
 		b, _ := c.CombinedOutput()
 		code := c.ProcessState.ExitCode()
@@ -602,22 +626,20 @@ func selfTest(prop string) []map[string]string {
 }
 
 
-// patchedFiles lists the source files a patch touches ("" if it touches anything but .go / .c files, e.g. a header:
-// then every function is re-verified).
-func patchedFiles(patch string) string {
-	b, err := os.ReadFile(patch)
-	if err != nil {
-		return ""
+// vcHash identifies the generated verification conditions of one function.
+func vcHash(r *FuncResult) string {
+	h := sha256.New()
+	for _, d := range r.Decls {
+		io.WriteString(h, d)
+		io.WriteString(h, "\n")
 	}
-	var fs []string
-	for _, ln := range strings.Split(string(b), "\n") {
-		if strings.HasPrefix(ln, "+++ b/") {
-			f := strings.TrimSpace(strings.TrimPrefix(ln, "+++ b/"))
-			if !strings.HasSuffix(f, ".go") && !strings.HasSuffix(f, ".c") {
-				return ""
-			}
-			fs = append(fs, f)
-		}
+	for _, c := range r.Cmds {
+		io.WriteString(h, c)
+		io.WriteString(h, "\n")
 	}
-	return strings.Join(fs, ",")
+	for _, o := range r.Obls {
+		fmt.Fprintf(h, "%s|%d|%s|%v\n", o.Name, o.Prefix, o.Goal, o.Local)
+	}
+	io.WriteString(h, r.Skipped)
+	return hex.EncodeToString(h.Sum(nil))
 }
